@@ -159,12 +159,41 @@ pub fn handle(op: &str, a: &[&str]) -> Option<String> {
             Some(format!("{} {}", if even { "even" } else { "odd" }, v.join(",")))
         }
         ("cg_crel_history", [maxlarge, rels]) => {
-            let mut s = CRelationSet::new(Int::from(-7i64), usize::MAX, u32_of(maxlarge)?, None);
-            if *rels != "-" {
-                for r in rels.split(';') {
-                    s.add(rel_of(r)?);
+            // with an output file, so that the written lines are part of the answer
+            let path = std::env::temp_dir().join(format!(
+                "c18-ymqh-{}-{}.rels",
+                std::process::id(),
+                COUNTER.fetch_add(1, Ordering::SeqCst)
+            ));
+            let parsed: Vec<CRelation> = if *rels == "-" {
+                vec![]
+            } else {
+                rels.split(';').map(rel_of).collect::<Option<Vec<_>>>()?
+            };
+            let mut s = CRelationSet::new(Int::from(-7i64), usize::MAX, u32_of(maxlarge)?, Some(path.clone()));
+            let res = std::panic::catch_unwind(std::panic::AssertUnwindSafe(|| {
+                for r in parsed {
+                    s.add(r);
                 }
-            }
+                s
+            }));
+            let s = match res {
+                Ok(s) => s,
+                Err(_) => {
+                    let _ = std::fs::remove_file(&path);
+                    return Some("panic".into());
+                }
+            };
+            let lines = std::fs::read_to_string(&path).unwrap_or_else(|_| "<missing>".into());
+            let _ = std::fs::remove_file(&path);
+            let lines = lines
+                .lines()
+                .map(|l| {
+                    let t = l.split_whitespace().collect::<Vec<_>>().join(",");
+                    if t.is_empty() { "e".to_string() } else { t }
+                })
+                .collect::<Vec<_>>()
+                .join(";");
             let em = s.emitted.iter().map(show_rel).collect::<Vec<_>>().join(";");
             use yamaquasi::relationcls::verif_hooks as vh;
             let paths = vh::vh_paths(&s)
@@ -183,7 +212,7 @@ pub fn handle(op: &str, a: &[&str]) -> Option<String> {
                 .collect::<Vec<_>>()
                 .join(",");
             Some(format!(
-                "{} | paths={} | stored={} | rev={} | partials={} doubles={} c12={} cycles={} len={}",
+                "{} | paths={} | stored={} | rev={} | partials={} doubles={} c12={} cycles={} len={} | lines={}",
                 if em.is_empty() { "-".into() } else { em },
                 paths,
                 if dbl.is_empty() { "-".into() } else { dbl },
@@ -192,7 +221,8 @@ pub fn handle(op: &str, a: &[&str]) -> Option<String> {
                 s.n_doubles,
                 s.n_combined12,
                 show_list(&s.n_cycles),
-                s.len()
+                s.len(),
+                if lines.is_empty() { "-".into() } else { lines }
             ))
         }
         ("cg_poly", [d, first, count, target]) => {
